@@ -2,13 +2,13 @@ SPECIFICATION ISpec
 CONSTANTS
   Tags = {"a", "b"}
   Terms = {"h"}
-  MaxArg = 2
+  MaxArg = 1
   MaxLen = 4
-  MaxChains = 4
+  MaxChains = 5
   MaxHands = 1
   MaxOps = 5
   MaxReqs = 0
-  Variant = "forward"
+  Variant = "copy"
   Emit = FALSE
   EmitFrom = 1
 INVARIANTS Refines WalkOK WalksOwnHandler
